@@ -153,6 +153,7 @@ func runC09(c *Ctx) {
 		}
 	}
 	ruleSASLDecode(c)
+	ruleTypeAssertGuarded(c) // AUTH on a backend without AuthSession is a refusal, not a panic
 
 	ruleNoPartialLine(c)
 
@@ -350,6 +351,50 @@ func ruleAuthAllowedDef(c *Ctx) {
 			}
 		})
 		R.Ob("(*Conn).TLSConnectionState/ok iff conn is *tls.Conn", c.P.Pos(f.Pos()), ok, "TLS state no longer derived from a *tls.Conn assertion on the live connection")
+		// ... and every value it reports as "ok" IS that assertion's outcome: the comma-ok result itself, or the
+		// constant true on the edge where the assertion held, or false
+		ff := c.F.Analyze(f)
+		okAtom := regexp.MustCompile(`^assert\[\*tls\.Conn\]\(Conn\.conn\)#1 == true$`)
+		allInstrs(f, func(in ssa.Instruction) {
+			r, isR := in.(*ssa.Return)
+			if !isR || in.Block() == f.Recover {
+				return
+			}
+			rv := returnedValues(r)
+			if len(rv) != 2 {
+				return
+			}
+			var judge func(v ssa.Value, facts FactSet, depth int) (bool, string)
+			judge = func(v ssa.Value, facts FactSet, depth int) (bool, string) {
+				if b, isB := constBool(v); isB {
+					if !b {
+						return true, ""
+					}
+					for a := range facts {
+						if okAtom.MatchString(a) {
+							return true, ""
+						}
+					}
+					return false, "constant true where the *tls.Conn assertion is not known to hold"
+				}
+				if ex, isEx := v.(*ssa.Extract); isEx && ex.Index == 1 {
+					if ta, isT := ex.Tuple.(*ssa.TypeAssert); isT && describe(ta.X) == "Conn.conn" && typeShort(ta.AssertedType) == "*tls.Conn" {
+						return true, ""
+					}
+				}
+				if phi, isPhi := v.(*ssa.Phi); isPhi && depth < 3 {
+					for i, e := range phi.Edges {
+						if good, why := judge(e, ff.edgeOut(phi.Block().Preds[i], phi.Block()), depth+1); !good {
+							return false, why
+						}
+					}
+					return true, ""
+				}
+				return false, describe(v)
+			}
+			good, why := judge(rv[1], ff.At(in), 0)
+			R.Ob(c.siteKey(in, "reported TLS flag is the assertion's outcome"), c.P.InstrPos(in), good, "TLSConnectionState can report ok=true because of "+why+": a plaintext connection would pass for TLS (AUTH offered and accepted, STARTTLS refused as already active, REQUIRETLS offered)")
+		})
 	}
 
 }
